@@ -74,12 +74,12 @@ def run(ctx):
     from checks import life
     from lib.replay import replay_family
     base = {"B": '{"b1"}', "T": '{"f", "g"}', "CB": '{"c1", "c2"}', "RS": "<- RS_12", "A": "{0, 1}", "Ops": "<- HeldOps"}
-    lb = life.sim(ctx, base, 60 if q else 1200, 10, "lifecycle histories for the race build")
+    lb = life.sim(ctx, base, 60 if q else 400, 10, "lifecycle histories for the race build")
     replay_family(ctx, "life", lb, race=True, classify=life.classify)
     gb = life.sim(ctx, {"B": '{"b1", "b2"}', "T": '{"f", "g", "h"}', "CB": '{"c1", "c2"}', "RS": "<- RS_12", "A": "{0}", "Ops": "<- GenericOps"},
-                  60 if q else 1200, 10, "generic-instantiation histories for the race build")
+                  60 if q else 400, 10, "generic-instantiation histories for the race build")
     replay_family(ctx, "life-generic", gb, race=True, classify=life.classify)
-    ib = ctx.behaviours(ctx.tlc("MC_Iface", "Sim_Iface.cfg", workers=1, timeout=900, simulate="num=%d" % (60 if q else 1200), depth=12, tag="interface histories for the race build"))
+    ib = ctx.behaviours(ctx.tlc("MC_Iface", "Sim_Iface.cfg", workers=1, timeout=900, simulate="num=%d" % (60 if q else 400), depth=12, tag="interface histories for the race build"))
     replay_family(ctx, "iface", ib, race=True, batch=4000)
     ctx.cov["rule"] = ("4 mocker goroutines (own builder, own target: three plain functions adjacent in one code page and one instantiation of a generic function, whose wrapper scan reads text outside the patch lock) x rounds of apply/call/re-stub/call/"
                        "reset/call with seeded yields, 3 callers hammering a steadily mocked method whose callback calls the origin "
